@@ -293,6 +293,167 @@ class Translator:
         raise Unsupported(f"type {ty}")
 
 
+class FuncKernel(t.NamedTuple):
+    """A whole function translated statement by statement (control skeleton) over an abstract
+    key type K and an abstract kdf : K -> Z -> Z -> K."""
+
+    name: str
+    file: str
+    func: str
+    params: t.List[t.Tuple[str, str]]  # Gallina binders in order, types Z | bool | K
+    locals: t.Dict[str, str]  # python local -> type
+    attr_params: t.Dict[str, str]  # dotted attribute (rk_l1) -> param name
+    props: t.Tuple[str, ...] = ()
+    # expected constant arguments of kdf(...) / compute_kdf_context(...)
+    kdf_shape: t.Tuple[str, ...] = ("algorithm", "KDS_SERVICE_LABEL", "64")
+    ctx_shape: t.Tuple[str, ...] = ("rk.root_key_identifier", "rk.l0")
+    sel: tuple = ("function",)
+    ty: str = "res K"
+
+
+class FuncTranslator(Translator):
+    def __init__(self, module, func, spec: FuncKernel):
+        super().__init__(module, func, dict(spec.params), inline_locals=False)
+        self.spec = spec
+        self.defined: t.Dict[str, str] = {}
+
+    def name(self, ident: str, want: str) -> str:
+        if ident in self.defined:
+            have = self.defined[ident]
+            if have == want:
+                return ident
+            if have == "Z" and want == "bool":
+                return f"(negb ({ident} =? 0))"
+            raise Unsupported(f"{ident} : {have} used as {want}")
+        if ident in self.spec.attr_params:
+            ident = self.spec.attr_params[ident]
+        return super().name(ident, want)
+
+    def key(self, e: ast.AST) -> str:
+        if isinstance(e, ast.Name):
+            return self.name(e.id, "K")
+        if isinstance(e, ast.Attribute):
+            d = _dotted(e)
+            if d is None:
+                raise Unsupported("attribute base")
+            return self.name(d, "K")
+        if isinstance(e, ast.Call) and _callee(e) == "kdf" and len(e.args) == 5 and not e.keywords:
+            if ast.unparse(e.args[0]) != self.spec.kdf_shape[0] or ast.unparse(e.args[2]) != self.spec.kdf_shape[1] \
+                    or ast.unparse(e.args[4]) != self.spec.kdf_shape[2]:
+                raise Unsupported("kdf(...) called with unexpected algorithm/label/length")
+            c = e.args[3]
+            if not (isinstance(c, ast.Call) and _callee(c) == "compute_kdf_context" and len(c.args) == 4 and not c.keywords):
+                raise Unsupported("kdf context is not compute_kdf_context(...)")
+            if ast.unparse(c.args[0]) != self.spec.ctx_shape[0] or ast.unparse(c.args[1]) != self.spec.ctx_shape[1]:
+                raise Unsupported("compute_kdf_context called with unexpected key id / l0")
+            return f"(kdf {self.key(e.args[1])} {self.z(c.args[2])} {self.z(c.args[3])})"
+        raise Unsupported(f"key expression {type(e).__name__}")
+
+    def typed(self, e: ast.AST, ty: str) -> str:
+        return {"Z": self.z, "bool": self.b, "K": self.key}[ty](e)
+
+    def _assigned(self, body: t.Sequence[ast.stmt]) -> t.List[str]:
+        out: t.List[str] = []
+        for st in body:
+            if isinstance(st, ast.Assign) and len(st.targets) == 1 and isinstance(st.targets[0], ast.Name):
+                v = st.targets[0].id
+            elif isinstance(st, ast.AugAssign) and isinstance(st.target, ast.Name):
+                v = st.target.id
+            elif isinstance(st, ast.Expr) and isinstance(st.value, ast.Constant) and isinstance(st.value.value, str):
+                continue
+            else:
+                raise Unsupported(f"statement {type(st).__name__} in a simple block")
+            if v not in out:
+                out.append(v)
+        return out
+
+    def _tuple(self, vs: t.Sequence[str]) -> str:
+        return vs[0] if len(vs) == 1 else "(" + ", ".join(vs) + ")"
+
+    def _pat(self, vs: t.Sequence[str]) -> str:
+        return vs[0] if len(vs) == 1 else "'(" + ", ".join(vs) + ")"
+
+    def simple_block(self, body: t.Sequence[ast.stmt], result: str) -> str:
+        """straight-line assignments ending in `result` (a Gallina term)"""
+        out = []
+        for st in body:
+            if isinstance(st, ast.Expr):
+                continue
+            if isinstance(st, ast.Assign):
+                v = st.targets[0].id
+                ty = self.spec.locals.get(v)
+                if ty is None:
+                    raise Unsupported(f"unexpected local {v}")
+                out.append(f"let {v} := {self.typed(st.value, ty)} in")
+                self.defined[v] = ty
+            elif isinstance(st, ast.AugAssign):
+                v = st.target.id
+                if self.defined.get(v) != "Z":
+                    raise Unsupported(f"augmented assignment to {v}")
+                rhs = self.z(ast.BinOp(left=ast.Name(id=v, ctx=ast.Load()), op=st.op, right=st.value))
+                out.append(f"let {v} := {rhs} in")
+        return " ".join(out + [result])
+
+    def block(self, body: t.Sequence[ast.stmt], depth: int = 1) -> str:
+        ind = "  " * depth
+        if not body:
+            raise Unsupported("function falls off the end")
+        st, rest = body[0], body[1:]
+        if isinstance(st, ast.Expr) and isinstance(st.value, ast.Constant) and isinstance(st.value.value, str):
+            return self.block(rest, depth)
+        if isinstance(st, ast.Return):
+            if st.value is None:
+                raise Unsupported("bare return")
+            return f"{ind}Ok {self.key(st.value)}"
+        if isinstance(st, (ast.Assign, ast.AugAssign)):
+            line = self.simple_block([st], "")
+            return f"{ind}{line.strip()}\n" + self.block(rest, depth)
+        if isinstance(st, ast.If):
+            if len(st.body) == 1 and isinstance(st.body[0], ast.Raise) and not st.orelse:
+                exc = st.body[0].exc
+                nm = _callee(exc) if isinstance(exc, ast.Call) else (exc.id if isinstance(exc, ast.Name) else "?")
+                if nm not in ("ValueError", "NotImplementedError"):
+                    raise Unsupported(f"raise {nm}")
+                return f"{ind}if {self.b(st.test)} then Raise {nm} else\n" + self.block(rest, depth)
+            if st.orelse:
+                raise Unsupported("if/else")
+            vs = self._assigned(st.body)
+            for v in vs:
+                if v not in self.defined:
+                    raise Unsupported(f"{v} assigned only inside if")
+            test = self.b(st.test)
+            saved = dict(self.defined)
+            inner = self.simple_block(st.body, self._tuple(vs))
+            self.defined = saved
+            return f"{ind}let {self._pat(vs)} := if {test} then ({inner}) else {self._tuple(vs)} in\n" + self.block(rest, depth)
+        if isinstance(st, ast.While):
+            if st.orelse:
+                raise Unsupported("while/else")
+            vs = self._assigned(st.body)
+            for v in vs:
+                if v not in self.defined:
+                    raise Unsupported(f"{v} assigned only inside while")
+            saved = dict(self.defined)
+            test = self.b(st.test)
+            inner = self.simple_block(st.body, self._tuple(vs))
+            self.defined = saved
+            fn = "fun " + (self._pat(vs) if len(vs) > 1 else vs[0]) + " =>"
+            return (f"{ind}let* {self._tuple(vs)} := while fuel ({fn} {test}) ({fn} {inner}) {self._tuple(vs)} in\n"
+                    + self.block(rest, depth))
+        raise Unsupported(f"statement {type(st).__name__}")
+
+
+def translate_func(k: FuncKernel) -> str:
+    mod = _module(k.file)
+    func = _find_func(mod, k.func)
+    tr = FuncTranslator(mod, func, k)
+    body = tr.block(func.body)
+    binders = " ".join(f"({n} : {ty})" for n, ty in k.params)
+    return (f"(* {k.file} :: {k.func} : statement-level translation of the whole body *)\n"
+            f"Section {k.name}_sec.\nContext {{K : Type}} (kdf : K -> Z -> Z -> K).\n"
+            f"Definition {k.name} (fuel : nat) {binders} : res K :=\n{body}.\nEnd {k.name}_sec.\n")
+
+
 _AST_CACHE: t.Dict[str, ast.Module] = {}
 
 
@@ -323,7 +484,7 @@ def python_source(k: Kernel) -> str:
 
 HEADER = """(* GENERATED on every run by vlib/kernels.py from /repo/src/dpapi_ng -- do not edit. *)
 From Coq Require Import ZArith Bool.
-From V Require Import Prelude.TrueDiv.
+From V Require Import Prelude.Base Prelude.Loops Prelude.TrueDiv.
 Open Scope Z_scope.
 
 """
@@ -337,8 +498,12 @@ def generate(kernels: t.Sequence[Kernel]) -> t.Dict[str, dict]:
     for k in kernels:
         fb_path = os.path.join(COQ, "gen_fallback", k.name + ".v")
         try:
-            text = translate(k)
-            status[k.name] = {"located": True, "source": python_source(k)}
+            if isinstance(k, FuncKernel):
+                text = translate_func(k)
+                status[k.name] = {"located": True, "source": f"<whole body of {k.func}>"}
+            else:
+                text = translate(k)
+                status[k.name] = {"located": True, "source": python_source(k)}
         except (Unsupported, OSError, SyntaxError) as exc:
             status[k.name] = {"located": False, "reason": str(exc)}
             if not os.path.exists(fb_path):
@@ -363,6 +528,6 @@ def generate(kernels: t.Sequence[Kernel]) -> t.Dict[str, dict]:
 def write_fallbacks(kernels: t.Sequence[Kernel]) -> None:
     os.makedirs(os.path.join(COQ, "gen_fallback"), exist_ok=True)
     for k in kernels:
-        text = translate(k)
+        text = translate_func(k) if isinstance(k, FuncKernel) else translate(k)
         with open(os.path.join(COQ, "gen_fallback", k.name + ".v"), "w") as fh:
             fh.write(text)
